@@ -173,6 +173,13 @@ def run_case(rng, tier, idx):
         return c.reject('%s in calc_kG0(c): %s' % (type(e).__name__, str(e)[:100]))
     c.hit('calc_kG0(c)')
     c.expect('state vector not modified', np.array_equal(cfull, cbefore))
+    crep, rk = gen.vec_repr(rng, cfull, lists=False)
+    c.tag('repr:' + rk)
+    try:
+        KGr = p.calc_kG0(size=size, row0=row0, col0=row0, silent=True, c=crep, nx=nx, ny=ny, Fnxny=Farg, NLgeom=NLgeom)
+    except Exception as e:
+        return c.reject('%s for a %s state vector: %s' % (type(e).__name__, rk, str(e)[:100]))
+    c.expect('kG0(c) independent of the memory layout of the state vector', np.array_equal(KGr.toarray(), KG.toarray()), rk)
     blk, outside = energy.block(KG, row0, size_p)
     c.expect('zero outside the panel block', outside == 0.0)
     c.expect('exactly symmetric', np.array_equal(blk, blk.T))
